@@ -147,7 +147,13 @@ impl Obj {
         Ok(o)
     }
 
+    /// truth table of a handle; for large instances (more than 6 statements) functions are not
+    /// tabulated and every handle reads as 0 — those histories are judged by raw handles and
+    /// T/F/u patterns against the never-restarted twin
     fn tt(&self, t: Term) -> Result<u64, String> {
+        if self.n > 6 {
+            return Ok(0);
+        }
         tt(&self.adf.bdd.nodes, t, self.n)
     }
 
@@ -181,6 +187,7 @@ impl Obj {
                 match term_to_v(t) {
                     V::T => sem.push('T'),
                     V::F => sem.push('F'),
+                    V::U if self.n > 6 => sem.push_str(&format!("u@{}.", t.value())),
                     V::U => sem.push_str(&format!("u{:x}.", self.tt(*t)?)),
                 }
                 raw.push_str(&format!("{},", t.value()));
@@ -330,6 +337,31 @@ impl Obj {
                 let s = format!("active({})={}", v % n, self.adf.bdd.active_var_impact(Var(v % n), &ac));
                 Answer { sem: s.clone(), raw: s }
             }
+            Step::Extra(op) if n > 6 => {
+                let t = match op {
+                    XOp::Var(v) => self.adf.bdd.variable(Var(v % n)),
+                    XOp::Not(a) => {
+                        let a = self.resolve(*a);
+                        self.adf.bdd.not(a)
+                    }
+                    XOp::And(a, b) | XOp::Or(a, b) | XOp::Imp(a, b) | XOp::Iff(a, b) | XOp::Xor(a, b) => {
+                        let (a, b) = (self.resolve(*a), self.resolve(*b));
+                        match op {
+                            XOp::And(..) => self.adf.bdd.and(a, b),
+                            XOp::Or(..) => self.adf.bdd.or(a, b),
+                            XOp::Imp(..) => self.adf.bdd.imp(a, b),
+                            XOp::Iff(..) => self.adf.bdd.iff(a, b),
+                            _ => self.adf.bdd.xor(a, b),
+                        }
+                    }
+                    XOp::Restrict(a, v, val) => {
+                        let a = self.resolve(*a);
+                        self.adf.bdd.restrict(a, Var(v % n), *val)
+                    }
+                };
+                self.extras.push(t);
+                Answer { sem: format!("extra@{}", t.value()), raw: format!("extra@{}", t.value()) }
+            }
             Step::Extra(op) => {
                 let mask = tt_mask(n);
                 let (t, want) = match op {
@@ -440,6 +472,68 @@ fn gen_heu(rng: &mut Rng) -> HeuK {
     }
 }
 
+impl History {
+    /// Around the 64-variable / 2^64-count boundaries: 63-70 statements, one parity condition
+    /// over all of them (2^(n-1) paths to each leaf), a chain that the grounded interpretation
+    /// decides step by step, restarts in between. Judged by raw handles and T/F/u patterns
+    /// against the never-restarted twin and by the structural canonicity check.
+    fn generate_large(&self, rng: &mut Rng) -> HistCase {
+        use refsem::F;
+        let n = *rng.pick(&[63usize, 64, 65, 66, 70]);
+        let names: Vec<String> = (0..n).map(|i| format!("s{i}")).collect();
+        // balanced, so that the replay file stays shallow (the diagram is the same)
+        fn xor_tree(lo: usize, hi: usize) -> F {
+            if lo + 1 == hi {
+                F::Atom(lo)
+            } else {
+                let mid = (lo + hi) / 2;
+                F::Xor(Box::new(xor_tree(lo, mid)), Box::new(xor_tree(mid, hi)))
+            }
+        }
+        let parity = xor_tree(0, n);
+        let mut acs = vec![parity];
+        for i in 1..n - 1 {
+            acs.push(match rng.below(6) {
+                0 => F::Not(Box::new(F::Atom(i + 1))),
+                1 => F::And(Box::new(F::Atom(i + 1)), Box::new(F::Atom(n - 1))),
+                _ => F::Atom(i + 1),
+            });
+        }
+        acs.push(if rng.chance(1, 2) { F::Top } else { F::Bot });
+        let spec = AdfSpec { names, acs, ac_order: (0..n).collect() };
+        let len = rng.range(4, 12) as usize;
+        let mut steps = Vec::new();
+        let mut extras = 0usize;
+        for _ in 0..len {
+            let r = |rng: &mut Rng| Ref::Ac(*rng.pick(&[0usize, 1, n / 2, n - 2, n - 1]));
+            let s = match rng.below(14) {
+                0 | 1 => Step::Grounded,
+                2 => Step::PrintGrounded,
+                3 => Step::Paths(r(rng)),
+                4 => Step::MaxDepth(r(rng)),
+                5 => Step::VarDeps(r(rng)),
+                6 => Step::PassiveImpact(*rng.pick(&[0usize, 63, 64, n - 1])),
+                7 => Step::ActiveImpact(*rng.pick(&[0usize, 63, 64, n - 1])),
+                8 | 9 => {
+                    extras += 1;
+                    let a = if extras > 1 && rng.chance(1, 2) { Ref::Extra(rng.below(extras as u64 - 1) as usize) } else { r(rng) };
+                    Step::Extra(match rng.below(4) {
+                        0 => XOp::Restrict(a, *rng.pick(&[0usize, 62, 63, 64, n - 1]), rng.chance(1, 2)),
+                        1 => XOp::Xor(a, r(rng)),
+                        2 => XOp::And(a, r(rng)),
+                        _ => XOp::Var(*rng.pick(&[0usize, 63, 64, n - 1])),
+                    })
+                }
+                10 | 11 => Step::RestartJson,
+                12 => Step::RestartBddJson,
+                _ => Step::RestartDb,
+            };
+            steps.push(s);
+        }
+        HistCase { spec, build: if rng.chance(1, 3) { Build::Bridged } else { Build::Native }, steps }
+    }
+}
+
 impl Scenario for History {
     type Case = HistCase;
     fn name(&self) -> &'static str {
@@ -457,6 +551,9 @@ impl Scenario for History {
     }
 
     fn generate(&self, rng: &mut Rng, thorough: bool) -> HistCase {
+        if self.property != "C11" && rng.chance(1, if thorough { 300 } else { 500 }) {
+            return self.generate_large(rng);
+        }
         let n = rng.range(1, 5) as usize;
         let depth = rng.range(1, 3) as u32;
         let mut spec = AdfSpec::gen(rng, n, depth, "s");
@@ -468,6 +565,13 @@ impl Scenario for History {
             1 => Build::BridgedGrounded,
             _ => Build::Native,
         };
+        if build == Build::Native && n >= 2 && rng.chance(1, 12) {
+            // labels that spell a formula (only the native route can take parentheses)
+            spec.names[1] = format!("not({})", spec.names[0]);
+            if n >= 3 {
+                spec.names[2] = if rng.chance(1, 2) { format!("and({},{})", spec.names[0], spec.names[1]) } else { format!("or({},{})", spec.names[1], spec.names[0]) };
+            }
+        }
         let with_restarts = self.property != "C11";
         let len = rng.range(1, if thorough { 30 } else { 25 }) as usize;
         let mut steps = Vec::new();
@@ -574,12 +678,51 @@ impl Scenario for History {
                     }
                 }
             };
-            let sem = refsem::Sem::new(&case.spec);
-            let grounded_ref = sem.grounded();
+            // large instances are not tabulated (2^n assignments)
+            let small = case.spec.n() <= 6;
+            let sem = if small { refsem::Sem::new(&case.spec) } else { refsem::Sem::from_tables(0, Vec::new()) };
+            let grounded_ref = if small { sem.grounded() } else { Vec::new() };
             if prop == "C06" {
                 if let Some(vv) = canonical_verdict(&main, "after-build") {
                     result = Some(vv);
                     break 'run;
+                }
+                // the handle stored for a statement denotes its condition (for the pre-grounded
+                // bridge: with the grounded values substituted) — otherwise the formula <-> handle
+                // correspondence is broken from the start
+                if case.spec.n() <= 6 {
+                    let grounded = sem.grounded();
+                    for (i, tab) in sem.tabs.iter().enumerate() {
+                        let got = match main.tt(main.adf.ac[i]) {
+                            Ok(g) => g,
+                            Err(e) => {
+                                result = v("canonical", "build-function", format!("statement {i}: {e} {ctx}"));
+                                break 'run;
+                            }
+                        };
+                        let nn = case.spec.n();
+                        let mut want = 0u64;
+                        for w in 0..(1u32 << nn) {
+                            // pre-grounded import: decided statements are substituted
+                            let mut w2 = w;
+                            if case.build == Build::BridgedGrounded {
+                                for (j, gv) in grounded.iter().enumerate() {
+                                    match gv {
+                                        V::T => w2 |= 1 << j,
+                                        V::F => w2 &= !(1 << j),
+                                        V::U => {}
+                                    }
+                                }
+                            }
+                            if tab[w2 as usize] {
+                                want |= 1 << w;
+                            }
+                        }
+                        if got != want {
+                            result = v("canonical", "build-function", format!("after build, the handle of statement {i} denotes {got:x}, its acceptance condition {want:x} {ctx}"));
+                            break 'run;
+                        }
+                    }
                 }
             }
             let mut restarts_fired = 0u64;
@@ -644,14 +787,16 @@ impl Scenario for History {
                 }
 
                 // --- oracles common to C11/C14: extra formulas denote what they should
-                if prop != "C06" {
-                    if let Step::Extra(_) = step {
-                        let parts: Vec<&str> = a.sem.split(' ').collect();
-                        if parts.len() == 2 && parts[0].trim_start_matches("extra=") != parts[1].trim_start_matches("want=") {
-                            result = v("extra-formula", "wrong-function", format!("step {i} {step:?}: {} {ctx}", a.sem));
-                            break 'run;
-                        }
+                // a formula built on the (possibly recovered / bridged) store denotes the function
+                // of its operands: otherwise two different functions share a handle
+                if let Step::Extra(_) = step {
+                    let parts: Vec<&str> = a.sem.split(' ').collect();
+                    if parts.len() == 2 && parts[0].trim_start_matches("extra=") != parts[1].trim_start_matches("want=") {
+                        result = v("extra-formula", "wrong-function", format!("step {i} {step:?}: {} {ctx}", a.sem));
+                        break 'run;
                     }
+                }
+                if prop != "C06" {
                     // handle stability: everything issued so far still denotes its function
                     for (h, f) in main.issued.clone() {
                         match main.tt(h) {
@@ -890,8 +1035,10 @@ fn canonical_verdict(o: &Obj, at: &str) -> Option<Violation> {
     if let Err((class, m)) = canon_check(nodes) {
         return Some(Violation::new("canonical", &class, format!("{at}: {m}")));
     }
-    if let Some(m) = handle_function_bijection(nodes, o.n) {
-        return Some(Violation::new("canonical", "handle-function", format!("{at}: {m}")));
+    if o.n <= 6 {
+        if let Some(m) = handle_function_bijection(nodes, o.n) {
+            return Some(Violation::new("canonical", "handle-function", format!("{at}: {m}")));
+        }
     }
     None
 }
